@@ -146,9 +146,140 @@ def _check_wide(i):
     return True, "ok"
 
 
+def _expectation_values_ob(fb):
+    """values / correlations / covariances of Measurements.get_expectation_values for ALL operators (any number of terms): Engine V over abstract
+    numpy arrays; `get_expectation_value_from_frequencies` is an uninterpreted function EF(qubit set, counts) (its own contract is the bounded part)"""
+    import z3
+    from vfw import sym, vcontract as vc, vtypes, vrt
+    from vfw.sym import Obj, SObj, SSeq, SInt, SReal
+    R = z3.RealSort()
+    EF = z3.Function("expectation_from_frequencies", Obj, Obj, R)
+    SD = z3.Function("symmetric_difference", Obj, Obj, Obj)
+    COUNTS = z3.Function("get_counts", Obj, Obj)
+    Arr2 = z3.ArraySort(z3.IntSort(), z3.ArraySort(z3.IntSort(), R))
+    sym.OBJ_SCHEMAS["IsingOp"] = {"is_ising": "Bool", "terms": "Seq[Obj:ITerm]"}
+    sym.OBJ_SCHEMAS["ITerm"] = {"coefficient": "Real", "qubits": "Obj:QSet"}
+    sym.OBJ_SCHEMAS["QSet"] = {"symmetric_difference": lambda self: (lambda o: SObj("QSet", SD(self.e, sym.lift(o))))}
+
+    def real(x):
+        e = sym.lift(x)
+        return z3.ToReal(e) if e.sort() == z3.IntSort() else e
+
+    class A2:
+        """2-D real array: element (i, j) -> value; either a z3 array-of-arrays (mutable store) or a lazily defined function"""
+
+        def __init__(self, arr=None, fn=None):
+            self.arr, self.fn = arr, fn
+
+        def at(self, i, j):
+            if self.fn is not None:
+                return self.fn(i, j)
+            return z3.Select(z3.Select(self.arr, sym.lift(i)), sym.lift(j))
+
+        def __getitem__(self, ij):
+            i, j = ij
+            return SReal(self.at(i, j))
+
+        def __setitem__(self, ij, v):
+            i, j = ij
+            if self.fn is not None:
+                raise sym.Unsupported("assignment into a derived array")
+            row = z3.Select(self.arr, sym.lift(i))
+            self.arr = z3.Store(self.arr, sym.lift(i), z3.Store(row, sym.lift(j), real(v)))
+
+        def _bin(self, o, f):
+            if isinstance(o, A2):
+                return A2(fn=lambda i, j: f(self.at(i, j), o.at(i, j)))
+            return A2(fn=lambda i, j: f(self.at(i, j), real(o)))
+
+        def __sub__(self, o): return self._bin(o, lambda a, b: a - b)
+        def __mul__(self, o): return self._bin(o, lambda a, b: a * b)
+        def __truediv__(self, o): return self._bin(o, lambda a, b: a / b)
+
+    class A1:
+        def __init__(self, seq):
+            self.seq = SSeq.of(seq)
+
+        def __getitem__(self, idx):
+            if isinstance(idx, tuple) and len(idx) == 2:
+                a, b = idx
+                if isinstance(a, slice) and b is None:
+                    return A2(fn=lambda i, j: real(self.seq.get(i if isinstance(i, (int, SInt)) else SInt(i))))
+                if a is None and isinstance(b, slice):
+                    return A2(fn=lambda i, j: real(self.seq.get(j if isinstance(j, (int, SInt)) else SInt(j))))
+            return self.seq[idx]
+
+    class NP:
+        newaxis = None
+        @staticmethod
+        def array(x, *a, **k): return A1(x)
+        @staticmethod
+        def zeros(shape, dtype=None):
+            zero_row = z3.K(z3.IntSort(), z3.RealVal(0))
+            return A2(arr=z3.K(z3.IntSort(), zero_row))
+
+    def fresh_a2(name):
+        return A2(arr=sym.cur().fresh(name, Arr2))
+
+    class EVHolder:
+        def __init__(self, values, correlations=None, estimator_covariances=None):
+            self.values, self.correlations, self.estimator_covariances = values, correlations, estimator_covariances
+
+    def ef_stub(qubits, freqs):
+        return SReal(EF(sym.lift(qubits), sym.lift(freqs)))
+
+    state = {}
+
+    def axioms():
+        c = sym.cur()
+        x, y = z3.Consts("x!sd y!sd", Obj)
+        c.axioms.append(z3.ForAll([x, y], SD(x, y) == SD(y, x), patterns=[SD(x, y)]))    # the symmetric difference of sets is commutative
+
+    def spec_corr(op, freqs, a, b):
+        """c_a c_b EF(qubits_a symmetric-difference qubits_b) for a != b, c_a^2 on the diagonal"""
+        ta, tb = op.terms.get(a), op.terms.get(b)
+        ca, cb = sym.lift(ta.coefficient), sym.lift(tb.coefficient)
+        off = ca * cb * EF(SD(sym.lift(ta.qubits), sym.lift(tb.qubits)), sym.lift(freqs))
+        return SReal(z3.If(sym.lift(a) == sym.lift(b), ca * ca, off))
+
+    def setup(args, ns):
+        M_ = ns["Measurements"]
+        m = M_.__new__(M_)
+        m.bitstrings = vtypes.mk("List[Obj:Shot]", "bitstrings")
+        me = sym.cur().fresh("measurements", Obj)
+        m.get_counts = lambda: SObj("Counts", COUNTS(me))
+        state["counts"] = SObj("Counts", COUNTS(me))
+        args["self"] = m
+        axioms()
+    CORR = "all(C.at(a, b) == SPEC(ising_operator, FREQS(), a, b) for a in range({A}) for b in range({A}))"
+    c = vc.Contract(
+        key=M + ":Measurements.get_expectation_values", params={"self": "Any", "ising_operator": "Obj:IsingOp", "use_bessel_correction": "Bool"},
+        requires="len(self.bitstrings) >= 2",
+        raises={"TypeError": "not ising_operator.is_ising"},
+        ensures="all(result.values.seq[i] == ising_operator.terms[i].coefficient * EFS(ising_operator.terms[i].qubits, FREQS()) for i in range(len(ising_operator.terms))) and "
+                + CORR.replace("C.at", "result.correlations[0].at").format(A="len(ising_operator.terms)") + " and "
+                "all(result.estimator_covariances[0].at(a, b) == (SPEC(ising_operator, FREQS(), a, b) - result.values.seq[a] * result.values.seq[b]) / "
+                "(len(self.bitstrings) - 1 if use_bessel_correction else len(self.bitstrings)) for a in range(len(ising_operator.terms)) for b in range(len(ising_operator.terms)))",
+        loops={"for#0": {"invariant": CORR.replace("C.at", "correlations.at").format(A="k"), "types": {"correlations": fresh_a2}},
+               "for#1": {"invariant": CORR.replace("C.at", "correlations.at").format(A="i") + " and correlations.at(i, i) == SPEC(ising_operator, FREQS(), i, i) and "
+                                      "all(correlations.at(i, b) == SPEC(ising_operator, FREQS(), i, b) and correlations.at(b, i) == SPEC(ising_operator, FREQS(), i, b) for b in range(k))",
+                         "types": {"correlations": fresh_a2}}},
+        spec={"SPEC": spec_corr, "FREQS": lambda: state["counts"], "EFS": lambda q, f: SReal(EF(sym.lift(q), sym.lift(f)))},
+        doc="values_i = c_i E(S_i); correlations_ab = c_a c_b E(S_a symmetric-difference S_b) (c_a^2 on the diagonal, symmetric); covariances = (correlations - values x values) / N, "
+            "or / (N - 1) with Bessel's correction; a non-Ising operator raises TypeError")
+
+    def call(ns, a):
+        return a["self"].get_expectation_values(a["ising_operator"], a["use_bessel_correction"])
+    return vprop.fn_ob("C10", c, {}, call=call, setup=setup, overrides={"np": NP}, fallback=fb, obid="C10.get_expectation_values.contract", timeout_ms=60000,
+                       extra_stubs=lambda: {"get_expectation_value_from_frequencies": ef_stub, "ExpectationValues": EVHolder},
+                       desc="get_expectation_values for ALL Ising operators (any number of terms): values, correlations via the symmetric difference (diagonal c^2, symmetric fill) and "
+                            "covariances with / without Bessel's correction match their definitions in terms of the per-support expectation (two nested loop invariants)")
+
+
 def build(tier, seed):
     obs = []
     fb = vprop.enum_ob("x", [], _cases("quick"), _check_stats, "").run
+    obs.append(_expectation_values_ob(fb))
 
     def frame_ob(key):
         def run():
